@@ -30,7 +30,7 @@ var emptyJSON = []byte("{}")
 type content struct {
 	Blobs   [4][]byte // config, layer0, layer1, foreign (foreign lives on the external host only)
 	Digs    [4]string
-	Man     map[string][]byte // v1, ext, sig, tmp
+	Man     map[string][]byte // v1, ext, sig, sig2, tmp
 	ManDig  map[string]string
 	ExtPath string
 }
@@ -79,6 +79,7 @@ func (c *Case) mkContent(src, repo int) *content {
 	ec := descJSON(mtEmpty, rm.Digest("sha256", emptyJSON), 2, `,"data":"e30="`)
 	subj := descJSON(mtOCIManifest, ct.ManDig["v1"], len(ct.Man["v1"]), "")
 	put("sig", fmt.Sprintf(`{"schemaVersion":2,"mediaType":%q,"artifactType":%q,"config":%s,"layers":[%s],"subject":%s}`, mtOCIManifest, sigType, ec, l0, subj))
+	put("sig2", fmt.Sprintf(`{"schemaVersion":2,"mediaType":%q,"artifactType":%q,"config":%s,"layers":[%s],"subject":%s,"annotations":{"c11":"second"}}`, mtOCIManifest, sigType+".b", ec, l0, subj))
 	put("tmp", fmt.Sprintf(`{"schemaVersion":2,"mediaType":%q,"config":%s,"layers":[%s],"annotations":{"c11":"tmp"}}`, mtOCIManifest, cfg, l0))
 	return ct
 }
@@ -90,7 +91,7 @@ func (ct *content) store(h *rm.Host, repo string, referrersAPI bool) {
 		r.Blobs[ct.Digs[i]] = ct.Blobs[i]
 	}
 	r.Blobs[rm.Digest("sha256", emptyJSON)] = emptyJSON
-	for _, n := range []string{"v1", "ext", "sig", "tmp"} {
+	for _, n := range []string{"v1", "ext", "sig", "sig2", "tmp"} {
 		if b, ok := ct.Man[n]; ok {
 			r.Manifests[ct.ManDig[n]] = &rm.Manifest{MediaType: mtOCIManifest, Body: b}
 		}
@@ -103,8 +104,9 @@ func (ct *content) store(h *rm.Host, repo string, referrersAPI bool) {
 	}
 	r.Tags["tmp"] = ct.ManDig["tmp"]
 	if !referrersAPI {
-		idx := fmt.Sprintf(`{"schemaVersion":2,"mediaType":%q,"manifests":[%s]}`, mtOCIIndex,
-			descJSON(mtOCIManifest, ct.ManDig["sig"], len(ct.Man["sig"]), fmt.Sprintf(`,"artifactType":%q`, sigType)))
+		idx := fmt.Sprintf(`{"schemaVersion":2,"mediaType":%q,"manifests":[%s,%s]}`, mtOCIIndex,
+			descJSON(mtOCIManifest, ct.ManDig["sig"], len(ct.Man["sig"]), fmt.Sprintf(`,"artifactType":%q`, sigType)),
+			descJSON(mtOCIManifest, ct.ManDig["sig2"], len(ct.Man["sig2"]), fmt.Sprintf(`,"artifactType":%q`, sigType+".b")))
 		d := rm.Digest("sha256", []byte(idx))
 		r.Manifests[d] = &rm.Manifest{MediaType: mtOCIIndex, Body: []byte(idx)}
 		r.Tags[strings.Replace(ct.ManDig["v1"], ":", "-", 1)] = d
@@ -135,6 +137,7 @@ type world struct {
 	named      map[int][]namedRealm // challenging host -> realms it named
 	challenged map[int][]int        // host -> Seq of every 401 it answered with a Basic/Bearer challenge
 	mintN      int
+	upN        int
 }
 
 func newResp(status int) *rm.Resp {
@@ -168,11 +171,15 @@ func buildWorld(c *Case) (*world, error) {
 		mh := w.m.AddHost(h.Name)
 		mh.Feat.MountGrant = true
 		mh.Feat.TagDelete = true
+		mh.Feat.TagListNoRepo404 = true
 		mh.Feat.Referrers = h.Referrers
 		mh.Feat.ReferrersPage = h.RefPage
 		mh.Feat.TagPage = h.TagPage
 		mh.Feat.LocStyle = h.LocStyle
 		if mh.Feat.LocStyle < 0 || mh.Feat.LocStyle > 3 {
+			mh.Feat.LocStyle = 0
+		}
+		if h.LocScheme == "http" || h.LocScheme == "https" {
 			mh.Feat.LocStyle = 0
 		}
 		if valid(h.Upload) && c.Hosts[h.Upload].Kind == "upload" {
@@ -339,13 +346,13 @@ func (w *world) challenge(owner int, ch ChallengeSpec, e *rm.Entry, insufficient
 		if insufficient {
 			parts = append(parts, `error="insufficient_scope"`)
 		}
-		switch ch.Variant % 4 {
-		case 1:
+		switch ch.Variant % 12 {
+		case 1, 5, 9:
 			bearer = "BEARER " + strings.Join(parts, ",")
-		case 2:
+		case 2, 6, 10:
 			bearer = "Bearer " + strings.Join(parts, ", ")
 		case 3:
-			bearer = "bearer   " + strings.Join(parts, " , ")
+			bearer = "bearer   " + strings.Join(parts, " , ") // optional white space around the comma (RFC 9110 #rule)
 		default:
 			bearer = "Bearer " + strings.Join(parts, ",")
 		}
@@ -580,6 +587,22 @@ func (w *world) intercept(m *rm.Model, h *rm.Host, e *rm.Entry, req *http.Reques
 					}
 				}
 			}
+		}
+		// upload session opened with an absolute Location whose scheme the server chose
+		// (e.g. a registry behind a TLS terminating proxy that does not know its external scheme)
+		if (hs.LocScheme == "http" || hs.LocScheme == "https") && !w.validHost(hs.Upload) && e.Method == "POST" &&
+			(e.Class == "upload-post" || e.Class == "upload-mount") && !strings.Contains(e.RawQuery, "from=") {
+			w.upN++
+			id := fmt.Sprintf("x%d", w.upN)
+			h.Repo(e.Repo)
+			h.Uploads[id] = &rm.Upload{ID: id, Repo: e.Repo}
+			e.Applied = true
+			e.Note = "session " + id
+			r := newResp(202)
+			r.Header.Set("Location", hs.LocScheme+"://"+hs.Name+"/v2/"+e.Repo+"/blobs/uploads/"+id)
+			r.Header.Set("Docker-Upload-UUID", id)
+			r.Header.Set("Range", "0-0")
+			return r
 		}
 		// first page of the tag list points to a page on another host
 		if w.validHost(hs.LinkTo) && w.c.Hosts[hs.LinkTo].Kind == "link" && e.Class == "tags-list" && e.Method == "GET" && !strings.Contains(e.RawQuery, "last=") {
